@@ -8,10 +8,10 @@ NSH = 4
 
 
 def gen_shard(args):
-    shard, nsh = args
+    shard, nsh, deep = args
     d = tlc.scratch_dir("c02gen%d" % shard)
     out = os.path.join(d, "cases.ndjson")
-    cfg = tlc.cfg_text(init="Init", next_="Next", constants={"Shard": shard, "NShards": nsh})
+    cfg = tlc.cfg_text(init="Init", next_="Next", constants={"Shard": shard, "NShards": nsh, "DeepSpace": "TRUE" if deep else "FALSE"})
     r = tlc.run_tlc("MC_EvalSem", cfg, workers=1, timeout=3000, env={"OUT": out}, cwd=d, heap="6g")
     if not os.path.exists(out):
         raise base.MachineryError("program generation failed (shard %d):\n%s" % (shard, r["out"][-2000:]))
@@ -182,9 +182,9 @@ def replay(args):
 def run(tier):
     R = base.Run("C02", tier)
     quick = tier == "quick"
-    nsh = NSH if quick else 8
+    nsh = NSH if quick else 16
     with cf.ProcessPoolExecutor(max_workers=8) as ex:
-        shards = list(ex.map(gen_shard, [(s, nsh) for s in range(nsh)]))
+        shards = list(ex.map(gen_shard, [(s, nsh, not quick) for s in range(nsh)]))
         out = list(ex.map(replay, [(p, "s%d" % i) for i, (p, d, w) in enumerate(shards)]))
     for (p, d, w) in shards:
         shutil.rmtree(d, ignore_errors=True)
